@@ -19,6 +19,7 @@ import (
 	"github.com/alpacahq/marketstore/v4/executor/wal"
 	"github.com/alpacahq/marketstore/v4/utils/io"
 	"github.com/alpacahq/marketstore/v4/utils/log"
+	"github.com/alpacahq/marketstore/v4/utils/verifhook"
 )
 
 /*
@@ -314,6 +315,7 @@ func (wf *WALFileType) FlushCommandsToWAL(writeCommands []*wal.WriteCommand) (er
 			return fmt.Errorf("failed to flush wal data: %w", err)
 		}
 
+		verifhook.At("wal.flush.synced")
 		// send transaction to replicas
 		if wf.ReplicationSender != nil {
 			wf.ReplicationSender.Send(tgSerialized)
@@ -336,6 +338,7 @@ func (wf *WALFileType) FlushCommandsToWAL(writeCommands []*wal.WriteCommand) (er
 		}
 		writesPerFile[keyPath] = nil // for GC
 	}
+	verifhook.At("wal.flush.primary.done")
 	return nil
 }
 
@@ -730,10 +733,12 @@ func (wf *WALFileType) SyncWAL(walRefresh, primaryRefresh time.Duration, walRota
 		if !*wf.shutdownPending {
 			select {
 			case <-tickerWAL.C:
+				verifhook.At("wal.loop.flush")
 				if err := wf.FlushToWAL(); err != nil {
 					log.Error("[tickerWAL] failed to FlushToWAL: " + err.Error())
 				}
 			case f := <-wf.txnPipe.flushChannel:
+				verifhook.At("wal.loop.reqflush")
 				if err := wf.FlushToWAL(); err != nil {
 					log.Error("[txnPipe.flushChannel] failed to FlushToWAL: " + err.Error())
 				}
@@ -746,12 +751,14 @@ func (wf *WALFileType) SyncWAL(walRefresh, primaryRefresh time.Duration, walRota
 					}
 				}
 			case <-tickerPrimary.C:
+				verifhook.At("wal.loop.checkpoint")
 				if err := wf.CreateCheckpoint(); err != nil {
 					log.Error("failed to create WAL checkpoint", zap.Error(err))
 				}
 				primaryFlushCounter++
 				if primaryFlushCounter%walRotateInterval == 0 {
 					log.Info("Truncating WAL file...")
+					verifhook.At("wal.loop.rotate.pre")
 					if err := wf.FilePtr.Truncate(0); err != nil {
 						log.Error("failed to truncate wal file", zap.Error(err))
 					}
@@ -759,10 +766,12 @@ func (wf *WALFileType) SyncWAL(walRefresh, primaryRefresh time.Duration, walRota
 						log.Error("failed to write NOT_REPLAYED status to wal", zap.Error(err))
 					}
 					primaryFlushCounter = 0
+					verifhook.At("wal.loop.rotate.post")
 				}
 			}
 		} else {
 			haveWALWriter = false
+			verifhook.At("wal.loop.shutdown")
 			log.Info("Flushing to WAL...")
 			err := wf.FlushToWAL()
 			if err != nil {
@@ -785,6 +794,7 @@ func (wf *WALFileType) SyncWAL(walRefresh, primaryRefresh time.Duration, walRota
 // returns if there is already one queued which will handle the data
 // present in the write channel, as it will flush as soon as possible.
 func (wf *WALFileType) RequestFlush() {
+	verifhook.At("wal.reqflush.enter")
 	if !haveWALWriter {
 		if err := wf.FlushToWAL(); err != nil {
 			log.Error("failed to flush WAL", zap.Error(err))
@@ -797,7 +807,9 @@ func (wf *WALFileType) RequestFlush() {
 	}
 	f := make(chan struct{})
 	wf.txnPipe.flushChannel <- f
+	verifhook.At("wal.reqflush.queued")
 	<-f
+	verifhook.At("wal.reqflush.done")
 }
 
 func (wf *WALFileType) Shutdown() {
